@@ -18,7 +18,8 @@
 // local statics used as scratch space, lazily built tables, cached pointers, global buffers — shows up as a wrong RESULT
 // (the oracle is the harness's reference for each call), in a replayable schedule.  What it does not see: interleavings
 // finer than a basic block (a read-modify-write inside one block is atomic here), weak-memory effects, and code that is
-// not instrumented (libc, libstdc++ out-of-line code, phosg sources built without the flag: calls into them are atomic).
+// not instrumented (libc, libstdc++ out-of-line code, phosg sources built without the flag: calls into them are atomic;
+// with VP_WRAP_LIBC the return from a set of libc calls that park results in static storage is a scheduling point too).
 //
 // Rules for harnesses: jobs must catch all exceptions and must not block; job bodies must be deterministic; reset the
 // observation slots to really fresh objects before every execution (see C10_preempt.cc: fresh()).
@@ -426,6 +427,35 @@ extern "C" VP_NOINSTR void __sanitizer_cov_trace_pc(void) {
   if (!vp::detail::g_in_job) return;
   vp::detail::point();
 }
+// ---- calls into libc as scheduling points ------------------------------------------------------------------------------
+// trace-pc gives one point per basic block, and a call does not end a basic block: two consecutive library calls (say
+// snprintf into a static buffer, then append of that buffer) have no point between them.  Variants that link with
+// -Wl,--wrap=<fn> for the functions below (props.py adds the flags when VP_WRAP_LIBC is requested) get a scheduling point
+// right AFTER each of these calls returns, when it was made by a job: exactly the window in which a result parked in
+// static storage (the caller's own static buffer, or libc's: gmtime, localtime, strtok, strerror) is still unread.
+// (memcpy/memset/strcpy are deliberately NOT in the list: inline libstdc++ code calls them while an exception object is
+// being built, and the C++ runtime's per-thread exception state is shared by fibers.)
+#ifdef VP_WRAP_LIBC
+#include <stdarg.h>
+#include <time.h>
+namespace vp { namespace detail {
+VP_NOINSTR inline void libc_point() { if (g_in_job) point(); }
+}}
+#define VP_WRAP_RET(ret, name, params, args) \
+  extern "C" ret __real_##name params;        \
+  extern "C" VP_NOINSTR ret __wrap_##name params { ret r_ = __real_##name args; vp::detail::libc_point(); return r_; }
+extern "C" int __real_vsnprintf(char*, size_t, const char*, va_list);
+extern "C" VP_NOINSTR int __wrap_vsnprintf(char* s, size_t n, const char* f, va_list va) { int r_ = __real_vsnprintf(s, n, f, va); vp::detail::libc_point(); return r_; }
+extern "C" VP_NOINSTR int __wrap_snprintf(char* s, size_t n, const char* f, ...) { va_list va; va_start(va, f); int r_ = __real_vsnprintf(s, n, f, va); va_end(va); vp::detail::libc_point(); return r_; }
+extern "C" VP_NOINSTR int __wrap_sprintf(char* s, const char* f, ...) { va_list va; va_start(va, f); int r_ = vsprintf(s, f, va); va_end(va); vp::detail::libc_point(); return r_; }
+VP_WRAP_RET(size_t, strftime, (char* s, size_t n, const char* f, const struct tm* t), (s, n, f, t))
+VP_WRAP_RET(struct tm*, gmtime, (const time_t* t), (t))
+VP_WRAP_RET(struct tm*, localtime, (const time_t* t), (t))
+VP_WRAP_RET(struct tm*, gmtime_r, (const time_t* t, struct tm* o), (t, o))
+VP_WRAP_RET(struct tm*, localtime_r, (const time_t* t, struct tm* o), (t, o))
+VP_WRAP_RET(char*, strtok, (char* s, const char* d), (s, d))
+VP_WRAP_RET(char*, strerror, (int e), (e))
+#endif
 // Guards of function-local statics (Itanium C++ ABI: first byte non-zero = initialised).  These definitions replace
 // libstdc++'s for the whole binary, which runs on ONE OS thread (jobs are fibers), so no atomics are needed.
 extern "C" VP_NOINSTR int __cxa_guard_acquire(long long* g) {
